@@ -224,6 +224,45 @@ def build(tier="quick", seed=0):
 
             pack.add(Obligation(name, run, replay=lambda w: {"call": "c08_mixed", "args": {"expr": w.get("expr"), "engine": w.get("engine")}}, functions=fu, mode="one selector object over a concrete mixed sequence"))
 
+    # the stated consequence, through the stream reader: a selector handed to the reader keeps exactly the records the condition is true for - a comparison on
+    # a missing field is false, so under `not` / in an `or` with a negation the records WITHOUT the field are kept
+    MISSING = object()
+    READER_CASES = {
+        "r.pid == 5": lambda f: f.get("pid", MISSING) == 5,
+        "not (r.pid == 5)": lambda f: not (f.get("pid", MISSING) == 5),
+        "not (r.pid >= 5)": lambda f: not ("pid" in f and f["pid"] >= 5),
+        "r.nm == 'y' or not (r.pid == 5)": lambda f: f.get("nm") == "y" or not (f.get("pid", MISSING) == 5),
+        "not (r.pid in (5, 6)) and not (r.nm == 'y')": lambda f: not (f.get("pid", MISSING) in (5, 6)) and not (f.get("nm", MISSING) == "y"),
+        "not has_field(r, 'pid')": lambda f: "pid" not in f,
+    }
+    for eng in ("Selector", "CompiledSelector"):
+        for expr, ref in READER_CASES.items():
+            name = f"C08.reader[{eng}, {expr}]"
+
+            def run(tier, eng=eng, expr=expr, ref=ref, name=name):
+                from pyvc.models.files import AbsFile
+
+                rows = [("c08/event", {"nm": "x"}), ("c08/event2", {"nm": "x", "pid": 5}), ("c08/other", {"pid": 7}), ("c08/event", {"nm": "y"}), ("c08/note", {"text": "t"}), ("c08/event2", {"nm": "y", "pid": 6})]
+
+                def th():
+                    st_ = it.loader.import_module("flow.record.stream")
+                    types = {"c08/event": [("string", "nm")], "c08/event2": [("string", "nm"), ("varint", "pid")], "c08/other": [("varint", "pid")], "c08/note": [("string", "text")]}
+                    fp = AbsFile(it, mode="wb")
+                    w = it.call(st_.g["RecordStreamWriter"], [fp], {})
+                    for tname, f in rows:
+                        it.call(it.getattr_(w, "write"), [it.call(it.call(RD, [tname, types[tname]], {}), [], dict(f))], {})
+                    it.call(it.getattr_(w, "flush"), [], {})
+                    rd = it.call(st_.g["RecordStreamReader"], [AbsFile(it, fp.content())], {"selector": it.call(sel.g[eng], [expr], {})})
+                    out = []
+                    for o in it.iterate(rd):
+                        out.append((it.getattr_(it.getattr_(o, "_desc"), "name"), {k: it.unbase(v) for k, v in o.attrs.items() if not k.startswith("_")}))
+                    return out
+
+                want = [(t, f) for t, f in rows if ref(f)]
+                return prove_paths(name, th, lambda p: (p.value == want, f"RecordStreamReader(selector={expr!r}) over a stream of four record types yields {p.value}, the condition holds for {want}"), lambda m, p: {"expr": expr, "engine": eng})
+
+            pack.add(Obligation(name, run, replay=lambda w: {"call": "c08_reader", "args": {"expr": w.get("expr"), "engine": w.get("engine")}}, functions=fu + ("flow.record.stream:RecordStreamReader.__iter__",), mode="one reader over a concrete stream of four record types"))
+
     pack.add(Obligation("C08.canary", run_canary, kind="canary"))
 
     # ---- engine vs CPython: the same expressions evaluated concretely by pyvc and natively by the real code
